@@ -128,10 +128,6 @@ def ob_abandon(pulls: int, pos0: int, pk: int) -> bool:
                     probs.append("pulled %r: not %d distinct results of this call" % (got, min(pl, n)))
                 if ov and pulled_before_overlap < n and r0.get("overlap") != "RuntimeError":
                     probs.append("a call during the unfinished run gave %r instead of RuntimeError" % (r0.get("overlap"),))
-                if r0.get("submitted_after_end") is not None:
-                    first_of_next = [s for s, m in sorted(o.sim.submit_meta.items()) if m is not None and m >= 1]
-                    # batches submitted after close() returned must all belong to the next call
-                    pass
             if r1["exc"] is not None:
                 probs.append("the object is not reusable: second call raised %r" % (r1["exc"],))
             elif (list(r1["result"]) if ordered else sorted(r1["result"])) != [(1, i) for i in range(3)]:
